@@ -4,6 +4,7 @@
   GatherRewardsForVotePeriod, AllocateRewards.
 -/
 import NibiruProofs.OracleMedian
+import Generated.Facts
 import NibiruProofs.DecLemmas
 namespace Nibiru.Oracle
 open Nibiru.Dec
@@ -345,5 +346,16 @@ theorem C12_reward_keeps_solvent (s : State) (perfs : List Perf) (h : Solvent s)
     simp only [hpay]
     refine ⟨?_, g3⟩
     split <;> omega
+
+/-! ### T1 (regenerated from x/oracle/abci.go and x/oracle/types/core.go on every run) -/
+
+/-- slashing and the miss-counter reset run exactly at the last block of a slash window: the end blocker calls `UpdateExchangeRates` under `IsPeriodLastBlock(VotePeriod)` and
+    `SlashAndResetMissCounters` under `IsPeriodLastBlock(SlashWindow)`, nothing else, and a period's last block is the one whose
+    height + 1 is a multiple of the period (the correspondence run calls the two keeper functions directly) -/
+theorem fact_C12_end_blocker_gates :
+    Generated.oracleEndBlockerCalls =
+      [("types.IsPeriodLastBlock(ctx, params.VotePeriod)", "UpdateExchangeRates"),
+       ("types.IsPeriodLastBlock(ctx, params.SlashWindow)", "SlashAndResetMissCounters")] ∧
+    Generated.oraclePeriodLastBlockExpr = "((uint64)(ctx.BlockHeight())+1)%blocksPerPeriod == 0" := by decide
 
 end Nibiru.Oracle
